@@ -170,6 +170,7 @@ func (e *Env) RSharedMapsNotReplaced() {
 // the loop runs from tokenf.Base() to tokenf.Base()+tokenf.Size() (exclusive) in steps of one, and
 // the look-ahead at i+1 is guarded against the end of the file.
 func (e *Env) RNewlineScan() {
+	e.RSearchLoops(e.pkgs(load.PkgDecorator))
 	pkg := e.Prog.Pkg(load.PkgDecorator)
 	info := pkg.TypesInfo
 	c := e.Sib.Ctx[load.PkgDecorator]
